@@ -177,7 +177,9 @@ func clip(s string) string {
 }
 
 var chars = func() []string {
-	out := []string{"\"", "\\", "/", "\x7f", "<", "&", ">", "é", "\u2028", "\u2029", "\ufffd", "\U0001F600", "\u00a0", "'", "{", "\u0100", "\u200b"}
+	out := []string{"\"", "\\", "/", "\x7f", "<", "&", ">", "é", "\u2028", "\u2029", "\ufffd", "\U0001F600", "\u00a0", "'", "{", "\u0100", "\u200b",
+		// text that LOOKS like a JSON escape sequence (a backslash followed by letters): it is data, not an escape
+		"\\u003c", "\\u0026", "\\n", "\\\""}
 	for c := 0; c < 0x20; c++ { // every control character
 		out = append(out, string(rune(c)))
 	}
